@@ -36,7 +36,9 @@ def plan(tier, master_seed):
         tasks.append({"engine": "schedsim", "index": index, "rng_seed": derive_seed(master_seed, ID, index),
                       "histories": PER_BATCH[tier], "length": LENGTH[tier], "asan": False})
     from . import common
-    for t in common.plan_runs(ID + "run", tier, master_seed, {"quick": 32, "thorough": 400},
+    from .. import gen as _gen
+    run_families = [name for name, spec in _gen.FAMILIES.items() if not spec.get("special")] + ["atoms_power_huge"]
+    for t in common.plan_runs(ID + "run", tier, master_seed, {"quick": 32, "thorough": 400}, families=run_families,
                               events={"quick": 1200, "thorough": 3000}):
         t["index"] += 10 ** 6
         tasks.append(t)
